@@ -480,8 +480,37 @@ func c11handoff(c *Ctx) {
 			if stop && zero != 1 {
 				return false, "the flusher may quit while a batch is in flight: the producer blocks on the confirmation forever and the batch is never executed"
 			}
-			if stop != cleared {
+			// (round 7) a result that is not a constant on this path — `return atomic.LoadInt32(&pe.inflight) == 0` — may be
+			// true: the decision to quit and the clearing of guarded must then have happened on this path, in one lock hold
+			mayStop := p.Abs(p.Results[0]).K != px.False
+			if mayStop && !stop && !cleared {
+				return false, "the result may be true on a path that did not clear guarded: deciding to quit and clearing guarded are two steps, and a threshold Add between them sees guarded == true, takes its batch and waits on a hand-off nobody receives any more"
+			}
+			if stop != cleared && !(mayStop && cleared) {
 				return false, fmt.Sprintf("quit=%v but guarded cleared=%v (the two must go together)", stop, cleared)
+			}
+			if cleared {
+				// the in-flight reading that justifies the quit and the store are in one critical section
+				w, readHeld, split := 0, false, false
+				for i := range p.Events {
+					e := &p.Events[i]
+					switch {
+					case lockOn("lock", "Lock")(e):
+						w++
+					case lockOn("lock", "Unlock")(e):
+						w--
+						if readHeld {
+							split = true
+						}
+					case e.Kind == px.EvCall && shortName(e.Call) == "sync/atomic.LoadInt32" && px.FieldAddrIs(e.Call.Args[0], "inflight", nil):
+						readHeld = w > 0
+						split = false
+					case e.Kind == px.EvStore && px.FieldAddrIs(e.Addr, "guarded", nil):
+						if !readHeld || split {
+							return false, "guarded is cleared outside the lock hold in which in-flight was read as 0"
+						}
+					}
+				}
 			}
 			return true, ""
 		})
